@@ -288,18 +288,23 @@ func (r *Replica) Start() error {
 // Stop gracefully stops the replication process
 func (r *Replica) Stop() error {
 	r.mu.Lock()
-	defer r.mu.Unlock()
-
 	if r.shutdown {
+		r.mu.Unlock()
 		return nil // Already shut down
 	}
 
 	// Signal shutdown
 	r.shutdown = true
 	r.cancel()
+	r.mu.Unlock()
 
-	// Wait for all goroutines to finish
+	// Wait for all goroutines to finish. The lock must not be held here: the replication
+	// loop takes it (when it connects, when it records an applied batch) before it can
+	// notice the cancellation.
 	r.wg.Wait()
+
+	r.mu.Lock()
+	defer r.mu.Unlock()
 
 	// Close connection and reset clients
 	if r.conn != nil {
@@ -794,7 +799,7 @@ func (c *DefaultPrimaryConnector) Connect(r *Replica) error {
 		grpc.WithBlock(),
 		grpc.WithTimeout(r.config.Connection.DialTimeout),
 		// Accept what the primary may send (its server is configured with the same limit)
-		grpc.WithDefaultCallOptions(grpc.MaxCallRecvMsgSize(16*1024*1024)),
+		grpc.WithDefaultCallOptions(grpc.MaxCallRecvMsgSize(16 * 1024 * 1024)),
 		grpc.WithKeepaliveParams(keepalive.ClientParameters{
 			Time:                30 * time.Second, // Send pings every 30 seconds if there is no activity
 			Timeout:             10 * time.Second, // Wait 10 seconds for ping ack before assuming connection is dead
